@@ -256,7 +256,7 @@ Definition main_post (kd : kind) (ctx timed : bool) : list eff :=
 Definition main_rest (out : ostate) (outfile : string) : list eff :=
   match out with
   | OutOk => [FWrote outfile; FInspect]
-  | OutNone => []
+  | OutNone | OutRebound => []
   | OutBroken => [FIOFails]
   end.
 Definition main_outcome (kd : kind) (out : ostate) : outcome :=
@@ -337,12 +337,12 @@ Lemma filter_dump_prog s : filter is_dump (map FProg s) = [].
 Proof. induction s as [|e t IH]; [reflexivity|exact IH]. Qed.
 
 Theorem flush_first_loses_results stream kd reg out ctx timed outfile :
-  out <> OutOk ->
+  out = OutNone \/ out = OutBroken ->
   let '(tr, oc, _) := exec stream kd reg out (kern_main_flush_first ctx timed outfile) pst0 in
   count_eff is_dump tr = 0 /\ oc = OIOError.
 Proof.
   intros Hout. unfold kern_main_flush_first, count_eff.
-  destruct out; [congruence| |];
+  destruct Hout as [-> | ->];
     destruct ctx, timed, kd; cbn [exec absorbed raise_eff program_outcome app];
     rewrite ?filter_app, ?filter_dump_prog; cbn [app filter is_dump length];
     rewrite ?filter_app, ?filter_dump_prog; cbn [app filter is_dump length]; split; reflexivity.
@@ -496,6 +496,66 @@ Example unwindowed_segment_is_lost :
   /\ p_hits (snd (wprof_run (fun _ => true) (0%nat, pst0)
                     (wrap (fun _ => true) [PCall 0; PLine 0 2; PRet 0; PCall 0; PLine 0 5; PRet 0]))) 0 5 = 1.
 Proof. split; reflexivity. Qed.
+
+(* ---- -v: the report reaches the saved stdout and shows what the file holds ---------------- *)
+Definition view_rest (out : ostate) (final : pst) (outfile : string) : list eff :=
+  match out with
+  | OutOk => [FWrote outfile; FView final]
+  | OutNone | OutRebound => [FView final]
+  | OutBroken => [FIOFails]
+  end.
+
+Lemma view_closed_form stream kd reg out ctx outfile :
+  exec stream kd reg out (kern_main_view ctx outfile) pst0
+  = (main_pre ctx ++ map FProg stream ++ main_post kd ctx false
+     ++ FDump outfile (prof_run reg pst0 stream) :: view_rest out (prof_run reg pst0 stream) outfile,
+     main_outcome kd out, prof_run reg pst0 stream).
+Proof.
+  unfold kern_main_view, main_pre, main_post, main_outcome, view_rest.
+  destruct out, ctx, kd; cbn [exec absorbed raise_eff program_outcome app];
+    rewrite <- ?app_assoc; reflexivity.
+Qed.
+
+Definition noview (tr : list eff) : bool := forallb (fun e => negb (is_view e)) tr.
+Lemma noview_prog s : noview (map FProg s) = true.
+Proof. induction s as [|e t IH]; [reflexivity|exact IH]. Qed.
+Lemma count_view_skip pre t : noview pre = true -> count_eff is_view (pre ++ t) = count_eff is_view t.
+Proof.
+  unfold count_eff. intros H. f_equal. f_equal. rewrite filter_app.
+  replace (filter is_view pre) with (@nil eff); [reflexivity|].
+  induction pre as [|e r IH]; [reflexivity|]. cbn [noview forallb] in H.
+  apply andb_prop in H as [H1 H2]. cbn [filter]. destruct (is_view e); [discriminate|]. apply IH, H2.
+Qed.
+Lemma viewed_skip pre t : noview pre = true -> viewed_state (pre ++ t) = viewed_state t.
+Proof.
+  induction pre as [|e r IH]; [reflexivity|]. cbn [noview forallb app].
+  intros H. apply andb_prop in H as [H1 H2]. destruct e; try discriminate; cbn [viewed_state]; apply IH, H2.
+Qed.
+
+(* kernprof -l -v, for ALL programs, outcomes and every state of the program's stdout on
+   which print() does not raise - untouched, None, or REBOUND to another stream: exactly
+   one report is written, to the stdout saved before the program ran, and it shows the
+   very state that the dump put into the file. *)
+Theorem view_agrees_with_file stream kd reg out ctx outfile :
+  out <> OutBroken ->
+  let '(tr, oc, st) := exec stream kd reg out (kern_main_view ctx outfile) pst0 in
+  count_eff is_view tr = 1
+  /\ viewed_state tr = Some (prof_run reg pst0 stream)
+  /\ last_dump tr = Some (outfile, prof_run reg pst0 stream)
+  /\ count_eff is_dump tr = 1.
+Proof.
+  intros Hout. rewrite view_closed_form.
+  assert (V1 : noview (main_pre ctx) = true) by (destruct ctx; reflexivity).
+  assert (V3 : noview (main_post kd ctx false) = true) by (destruct kd, ctx; reflexivity).
+  pose proof (noview_prog stream) as V2.
+  pose proof (nodump_pre ctx) as H1. pose proof (nodump_prog stream) as H2.
+  pose proof (nodump_post kd ctx false) as H3.
+  repeat split.
+  - rewrite !count_view_skip by assumption. destruct out; try reflexivity. congruence.
+  - rewrite !viewed_skip by assumption. destruct out; try reflexivity. congruence.
+  - rewrite !app_assoc. apply last_dump_app. destruct out; reflexivity.
+  - rewrite !count_dump_skip by assumption. destruct out; reflexivity.
+Qed.
 
 (* ---- the explicit mode ------------------------------------------------------------------- *)
 Definition hook_outputs (r : res emitted) : list (Z * option string) :=
